@@ -34,7 +34,7 @@ structure Render where
 structure Inst where
   cls : String
   attrs : Attrs
-  /-- `_instantiated` is in `__dict__` (absent after unpickling) -/
+  /-- `_instantiated` is in `__dict__` (set last by `__init__`; restored by `__setstate__`) -/
   instantiated : Bool := true
   /-- `_none_fields` (`None`/absent and the empty set are indistinguishable for `__eq__`/`__str__`) -/
   nones : List String := []
@@ -127,15 +127,6 @@ def hashKey (R : Render) (x : Inst) : String :=
 /-- `__copy__`: a new object with the same `__dict__` entries (internal ones included) -/
 def copyI (x : Inst) : Inst := x
 
-/-- field names of the Structure classes a value can contain, by class name -/
-abbrev ClassTbl := List (String × List String)
-
-/-- `name in fields_by_name` for `__getstate__` (a class missing from the table keeps everything) -/
-def keepAttr (names : Option (List String)) (k : String) : Bool :=
-  match names with
-  | none => true
-  | some ns => ns.contains k
-
 /-- CPython's iteration order of a set rebuilt from the listed elements.  `copy.deepcopy` and
     `pickle` rebuild every set by inserting its elements in iteration order; the resulting order is
     a matter of the hash-table layout (colliding elements can swap) and is outside the model: it is
@@ -143,17 +134,16 @@ def keepAttr (names : Option (List String)) (k : String) : Bool :=
 abbrev SetOrder := List PyVal → List PyVal
 
 mutual
-/-- a value rebuilt by `copy.deepcopy` (`T = []`) or by a pickle round trip (`T` = the class
-    table): containers are rebuilt element by element, sets in the order `S` gives, and every
-    Structure inside a pickle goes through `__getstate__`, which keeps only the *fields* that are
-    set (extra attributes are not part of the state) -/
-def pickleV (T : ClassTbl) (S : SetOrder) : PyVal → PyVal
-  | .list xs => .list (pickleVs T S xs)
-  | .tuple xs => .tuple (pickleVs T S xs)
-  | .deque xs => .deque (pickleVs T S xs)
-  | .set f xs => .set f (S (pickleVs T S xs))
-  | .dict kvs => .dict (pickleKvs T S kvs)
-  | .inst c attrs => .inst c (pickleAttrs T S (lookup c T) attrs)
+/-- a value rebuilt by `copy.deepcopy` or by a pickle round trip: containers are rebuilt element by
+    element, sets in the order `S` gives; a Structure inside keeps every `__dict__` entry
+    (`__getstate__` returns the set fields *and* the additional properties, since 4ede29b) -/
+def rebuildV (S : SetOrder) : PyVal → PyVal
+  | .list xs => .list (rebuildVs S xs)
+  | .tuple xs => .tuple (rebuildVs S xs)
+  | .deque xs => .deque (rebuildVs S xs)
+  | .set f xs => .set f (S (rebuildVs S xs))
+  | .dict kvs => .dict (rebuildKvs S kvs)
+  | .inst c attrs => .inst c (rebuildAttrs S attrs)
   | .none => .none
   | .bool b => .bool b
   | .int i => .int i
@@ -163,38 +153,34 @@ def pickleV (T : ClassTbl) (S : SetOrder) : PyVal → PyVal
   | .enumv c n => .enumv c n
   | .opaque t => .opaque t
 termination_by structural v => v
-def pickleVs (T : ClassTbl) (S : SetOrder) : List PyVal → List PyVal
+def rebuildVs (S : SetOrder) : List PyVal → List PyVal
   | [] => []
-  | x :: xs => pickleV T S x :: pickleVs T S xs
+  | x :: xs => rebuildV S x :: rebuildVs S xs
 termination_by structural xs => xs
-def pickleKvs (T : ClassTbl) (S : SetOrder) : List (PyVal × PyVal) → List (PyVal × PyVal)
+def rebuildKvs (S : SetOrder) : List (PyVal × PyVal) → List (PyVal × PyVal)
   | [] => []
-  | (k, v) :: rest => (pickleV T S k, pickleV T S v) :: pickleKvs T S rest
+  | (k, v) :: rest => (rebuildV S k, rebuildV S v) :: rebuildKvs S rest
 termination_by structural kvs => kvs
-/-- `__getstate__` on the `__dict__` entries (`names` = the class's field names) -/
-def pickleAttrs (T : ClassTbl) (S : SetOrder) (names : Option (List String)) :
-    List (String × PyVal) → List (String × PyVal)
+def rebuildAttrs (S : SetOrder) : List (String × PyVal) → List (String × PyVal)
   | [] => []
-  | (k, v) :: rest =>
-    if keepAttr names k then (k, pickleV T S v) :: pickleAttrs T S names rest
-    else pickleAttrs T S names rest
+  | (k, v) :: rest => (k, rebuildV S v) :: rebuildAttrs S rest
 termination_by structural kvs => kvs
 end
 
-/-- pickle round trip of an instance: `__getstate__`, then the default `__setstate__`
-    (`__dict__.update(state)`) on a bare `cls.__new__(cls)`: no `_instantiated`, no `_none_fields`.
-    (`__getstate__` lists the fields in class-body order; the order of `__dict__` is not observable
-    through `==`, `str` or `hash` and is not modelled.) -/
-def pickleI (T : ClassTbl) (S : SetOrder) (x : Inst) : Inst :=
-  { cls := x.cls, attrs := pickleAttrs T S (lookup x.cls T) x.attrs, instantiated := false, nones := [] }
+/-- pickle round trip of an instance: `__getstate__` (set fields and additional properties), then
+    `__setstate__` = `__dict__.update(state)` on a bare `cls.__new__(cls)` plus the bookkeeping
+    entries `__init__` creates: `_instantiated = True` and an empty `_none_fields` (which is not
+    part of the state).  (`__getstate__` lists the fields in class-body order, then the extras; the
+    order of `__dict__` is not observable through `==`, `str` or `hash` and is not modelled.) -/
+def pickleI (S : SetOrder) (x : Inst) : Inst :=
+  { cls := x.cls, attrs := rebuildAttrs S x.attrs, instantiated := true, nones := [] }
 
 /-- `__deepcopy__`: an immutable structure is returned as is; otherwise every `__dict__` entry is
-    deep-copied (`pickleV []`: no class table, nothing is filtered) and re-assigned through
-    `__setattr__` under `_skip_validation`, which drops a `None` for a non-required name when the
-    class ignores `None` -/
+    deep-copied and re-assigned through `__setattr__` under `_skip_validation`, which drops a
+    `None` for a non-required name when the class ignores `None` -/
 def deepcopyI (c : ClassOpts) (S : SetOrder) (x : Inst) : Inst :=
   if c.immutable then x
-  else { x with attrs := (pickleAttrs [] S none x.attrs).filter
+  else { x with attrs := (rebuildAttrs S x.attrs).filter
                   (fun kv => !(kv.2.isNone && c.ignoreNone && !c.required.contains kv.1)) }
 
 /-! ### mutation of an instance that knows whether it is `_instantiated` -/
